@@ -166,6 +166,9 @@ class CheckedDimensions(Harness):
 
 
 CANARIES = [
+    ('temporary file of write_atomic created in a shared directory', 'AtomicWrite', {'mapproxy.util.fs': [(
+        "        path_tmp = filename + '.tmp-' + str(random.randint(0, 99999999))",
+        "        path_tmp = '/var/tmp/mapproxy.tmp-' + str(random.randint(0, 99999999))")]}, {}),
     ('dimension directory not sanitised', 'CachePath', {'mapproxy.cache.path': [(
         "    return name.replace('/', '_').replace('\\\\', '_')", "    return name")]},
      dict(layout='tc', keys='time')),
@@ -179,6 +182,101 @@ CANARIES = [
 ]
 
 
+class AtomicWrite(Harness):
+    """util.fs.write_atomic (every file-cache tile, bundle header and legend goes through it): whatever
+    it opens, creates, renames or removes lies in the directory of the target file -- also on the error path."""
+    modules = ['mapproxy.util.fs']
+    functions = ['write_atomic']
+
+    @classmethod
+    def build(cls, L, cfg):
+        return dict(fs=L.mods['mapproxy.util.fs'])
+
+    @classmethod
+    def inputs(cls, ctx, cfg):
+        name = FreeStr.var('name', 6)
+        assume(NOT(symex.free_contains_char(name.atoms, SEPS)))
+        assume(NOT(symex.free_eq_literal(name.atoms, '..')))
+        assume(NOT(symex.free_eq_literal(name.atoms, '')))
+        return dict(name=name, rnd=int_var('random'))
+
+    @classmethod
+    def native_inputs(cls, cex):
+        return dict(name=cex['name'], rnd=int(cex['rnd']))
+
+    @classmethod
+    def prop(cls, ctx, cfg, name, rnd):
+        import types
+        fs = ctx['fs']
+        touched = []
+        fail = cfg.get('fail')
+
+        class FH(object):
+            def __enter__(self):
+                return self
+
+            def __exit__(self, *a):
+                return False
+
+            def write(self, data):
+                if fail == 'write':
+                    raise OSError(28, 'no space left')
+
+        def rec(op):
+            def f(*paths_and_more):
+                for p_ in paths_and_more:
+                    if isinstance(p_, (str, SymStr, SymPath)):
+                        touched.append((op, p_))
+                if fail == op:
+                    raise OSError(5, 'io error')
+                return 7
+            return f
+
+        def mkstemp(suffix=None, prefix=None, dir=None, text=False):
+            # stub of the C-level tempfile contract: a new file in `dir` (default: the system temp directory)
+            base = dir if dir is not None else '/tmp'
+            p_ = base + '/' + (prefix if prefix is not None else 'tmp') + 'k3x9' + (suffix if suffix is not None else '')
+            touched.append(('mkstemp', p_))
+            return 7, p_
+        def _comps(p_):
+            return symex.path_components(p_)
+
+        def basename(p_):
+            return os.path.basename(p_) if isinstance(p_, str) else SymStr(list(_comps(p_)[-1]))
+
+        def dirname(p_):
+            if isinstance(p_, str):
+                return os.path.dirname(p_)
+            atoms = []
+            for c in _comps(p_)[:-1]:
+                atoms.append('/')
+                atoms.extend(c)
+            return SymStr(atoms)
+
+        def join(*parts):
+            out = parts[0]
+            for q in parts[1:]:
+                out = out + '/' + q
+            return out
+        spath = types.SimpleNamespace(basename=basename, dirname=dirname, join=join, sep='/', exists=lambda p_: False)
+        target = ROOT + '/07/000/000/' + name
+        fs.os = types.SimpleNamespace(open=rec('open'), fdopen=lambda fd, mode='r': FH(), rename=rec('rename'), unlink=rec('unlink'),
+                                      remove=rec('remove'), link=rec('link'), symlink=rec('symlink'), makedirs=rec('makedirs'),
+                                      O_EXCL=128, O_CREAT=64, O_WRONLY=1, path=spath, sep=os.sep)
+        fs.random = types.SimpleNamespace(randint=lambda a, b: abs(rnd) if not isinstance(rnd, int) else abs(rnd))
+        if hasattr(fs, 'tempfile'):
+            fs.tempfile = types.SimpleNamespace(mkstemp=mkstemp, NamedTemporaryFile=None, gettempdir=lambda: '/tmp')
+        try:
+            fs.write_atomic(target, b'DATA')
+        except OSError:
+            if not fail:
+                return False
+        ok = len(touched) >= 2
+        for op, p_ in touched:
+            ok = AND(ok, stays_below(p_, ROOT + '/07/000/000') if not isinstance(p_, str) else stays_below(p_, ROOT + '/07/000/000'))
+        return ok
+
+
 def obligations(tier, seed):
     specs = []
     layouts = ['tc', 'mp', 'tms', 'reverse_tms', 'arcgis', 'quadkey']
@@ -189,6 +287,9 @@ def obligations(tier, seed):
             specs.append(spec(MOD, 'CachePath', 'cache-path/%s/%s' % (layout, keys), cfg=dict(layout=layout, keys=keys), cost=30))
     specs.append(spec(MOD, 'LockName', 'lock-name', cfg={}))
     specs.append(spec(MOD, 'CheckedDimensions', 'checked-dimensions', cfg={}))
+    for fail in (None, 'write', 'rename', 'open'):
+        specs.append(spec(MOD, 'AtomicWrite', 'atomic-write-stays-in-directory/%s' % (fail or 'ok'), cfg=dict(fail=fail)))
+    specs.append(spec(MOD, 'AtomicWrite', 'twin/AtomicWrite', kind='witness', cfg={}))
     specs.append(spec(MOD, 'CachePath', 'twin/CachePath', kind='witness', cfg=dict(layout='tc', keys='time')))
     specs.append(spec(MOD, 'CheckedDimensions', 'twin/CheckedDimensions', kind='witness', cfg={}))
     for label, h, patches, c in CANARIES:
@@ -204,8 +305,9 @@ META = dict(
                 '(an absolute component discards the prefix), produce a path term for which z3 shows: it stays strictly below '
                 'the cache directory (prefix root/, no ".." component, no backslash). Lock file names are built from the '
                 'cache id and integers only and are injective per tile; the tile services pass only configured dimension '
-                'values (or the default) on to the tile manager.',
-    functions=sorted(set(CachePath.functions + LockName.functions + CheckedDimensions.functions)),
+                'values (or the default) on to the tile manager; write_atomic creates, renames and removes files only in the '
+                'directory of its target (free file name, os/tempfile/random replaced by recording stubs, error paths included).',
+    functions=sorted(set(CachePath.functions + LockName.functions + CheckedDimensions.functions + AtomicWrite.functions)),
     bounds='dimension values: arbitrary strings of length <= 8 (1-2 values); dimension keys from an adversarial family of 5 '
            '(incl. keys containing "/" and ".."); coordinates >= 0 (in-grid is C16\'s obligation)',
     outside='which request parameters are recognised as dimensions (regex, C code), multiapp project names, S3/Azure key construction, '
